@@ -93,7 +93,7 @@ fn template_body<const N: usize>(t: &[u8; N], kind: u8) { let s = from_template(
 //# {"id":"c06_map_desc_t_two","props":["C06","C08"],"tier":"quick","cap":900,"lib":"verif","bound":"all strings La;L?; (a mapped name followed by a second, symbolic one) as return descriptor; unwind 9","fns":["quill::remapper::map_desc","ARemapper::{map_return_desc,map_class}"]}
 //# {"id":"c06_map_desc_t_xLx","props":["C06","C08"],"tier":"thorough","cap":3600,"bound":"all strings ?L?; as field descriptor (array / garbage prefix byte, one-byte name); unwind 7","lib":"verif","fns":["quill::remapper::map_desc","ARemapper::{map_field_desc,map_class}"]}
 //# {"id":"c06_map_desc_t_Lxx","props":["C06","C08"],"tier":"thorough","cap":3600,"bound":"all strings L??; as return descriptor (two-byte names, early ;); unwind 7","lib":"verif","fns":["quill::remapper::map_desc","ARemapper::{map_return_desc,map_class}"]}
-//# {"id":"c06_map_desc_t_Lx_x","props":["C06","C08"],"tier":"thorough","cap":2400,"bound":"all strings L?;? as field descriptor (a byte after the class name); unwind 7","lib":"verif","fns":["quill::remapper::map_desc","ARemapper::{map_field_desc,map_class}"]}
+//# {"id":"c06_map_desc_t_Lx_x","props":["C06","C08"],"tier":"quick","cap":900,"bound":"all strings L?;? as field descriptor (a byte after the class name); unwind 7","lib":"verif","fns":["quill::remapper::map_desc","ARemapper::{map_field_desc,map_class}"]}
 //# {"id":"c06_map_desc_t_method","props":["C06","C08"],"tier":"thorough","cap":3000,"bound":"all strings (L?;)L?; as method descriptor (two names in one descriptor); unwind 11","lib":"verif","fns":["quill::remapper::map_desc","ARemapper::{map_method_desc,map_class}"]}
 //# {"id":"c06_map_desc_t_arr","props":["C06","C08"],"tier":"thorough","cap":3000,"bound":"all strings [[L?/?; as field descriptor (package-qualified name inside an array descriptor); unwind 10","lib":"verif","fns":["quill::remapper::map_desc","ARemapper::{map_field_desc,map_class}"]}
 //# {"id":"c06_map_desc_ascii3","props":["C06","C08"],"tier":"thorough","cap":3600,"bound":"every ASCII string of length 0..=3 as field / method / return descriptor; hash-free remapper a->bb, c->d; unwind 6 (exceeded 12 GB in every run so far: expected UNDECIDED)","fns":["quill::remapper::map_desc","ARemapper::{map_field_desc,map_method_desc,map_return_desc,map_class}"]}
